@@ -131,8 +131,10 @@ struct MonoLT {
     static std::monostate make(const Words &) { return {}; }
     static Words read(const std::monostate &) { return {}; }
 };
+#ifndef VF_NO_LINEAR
 template <class B, class V>
 struct LT<cb::linear<B, V>> : MonoLT {};
+#endif
 template <class B, class V>
 struct LT<cb::nearest_neighbour<B, V>> : MonoLT {};
 template <class B, class P>
